@@ -329,18 +329,31 @@ impl World {
         o
     }
     /// the earliest active deadline and its task
+    /// the earliest pending deadline - only if it is the only one in its millisecond: the clock moves in whole
+    /// milliseconds (timer resolution), so deadlines that coincide fire together, which one `Fire t` cannot say
     fn next_deadline(&self) -> Option<(usize, Duration)> {
         let sh = self.log.sh.lock().unwrap();
+        let ms = |d: &Duration| (d.as_micros() + 999) / 1000;
         let mut best: Option<(usize, Duration)> = None;
+        let mut tie = false;
         for (t, d) in self.wait_deadline.iter().chain(self.gate_deadline.iter()) {
             if sh.results.contains_key(t) {
                 continue;
             }
-            if best.map(|b| *d < b.1).unwrap_or(true) {
-                best = Some((*t, *d));
+            match best {
+                Some(b) if ms(d) == ms(&b.1) => tie = true,
+                Some(b) if ms(d) > ms(&b.1) => {}
+                _ => {
+                    best = Some((*t, *d));
+                    tie = false;
+                }
             }
         }
-        best
+        if tie {
+            None
+        } else {
+            best
+        }
     }
     fn enabled(&self, l: &[i64]) -> bool {
         let sh = self.log.sh.lock().unwrap();
